@@ -7,7 +7,7 @@ GLOBAL_TRUSTED = [
     "derived PartialEq on fieldless enums is structural",
 ]
 
-HOOK_COMMITS = ["26e7f2c", "6959aad", "c557a63"]
+HOOK_COMMITS = ["26e7f2c", "6959aad", "c557a63", "7798f29"]
 
 PROPS = {
     "C01": {
@@ -55,7 +55,11 @@ PROPS["C18"] = {
 
 PROPS["C14"] = {
     "units": ["ws_frame"],
-    "kani": [],
+    "kani": [
+        {"crate": "actix-http", "features": "ws", "harness": "kb_apply_mask_len16", "kind": "bounded", "quick": True, "timeout": 1800,
+         "bound": "slices of at most 16 bytes at each of the four alignments of the slice start; all contents and masks",
+         "what": "ws::mask::apply_mask (unsafe align_to_mut fast path) == per-byte XOR with mask[i % 4]; bytes outside the slice untouched; no out-of-bounds access (backs the XOR contract the ws_frame unit assumes for apply_mask)"},
+    ],
     "technique": "Verus contracts on the extracted real ws::Parser::{parse_metadata, parse} and OpCode conversions against an RFC 6455 section 5.2 header oracle; header segmentation lemma over the contracts",
     "level_text": "deductive proof, for all byte strings, roles and max_size values, that the frame parser decides exactly the RFC 6455 header (mask bit per role, reserved opcodes, 7/16/64-bit lengths), consumes nothing until a frame is complete, then consumes exactly idx+len bytes, unmasks the payload, rejects over-long control frames and never delivers more than max_size; decided headers are stable under extension of the input (segmentation lemma); that Parser::write_message appends exactly the RFC 6455 frame (minimal 7/16/64-bit length form at the 125/126/65535/65536 boundaries, mask bit and key per role, payload XOR key); and (round-trip lemma over the two contracts, all lengths and keys) that the receiving role's parser recovers fin, opcode, length and the original payload from an encoded frame followed by arbitrary bytes; Codec::decode follows the RFC 6455 section 5.4 fragmentation automaton",
     "level_note": "assumes shim contracts for BytesMut, big-endian helpers (R14) and apply_mask == XOR with key[i mod 4]; one obligation (oversize frame refused before buffering) fails on the unchanged tree and is recorded as a known finding",
